@@ -7,7 +7,7 @@ Import ListNotations.
 
 Definition verdict_is (r : outcome bool) (b : bool) : bool := outcome_eqb Bool.eqb r (Ok b).
 
-(** one model instance: (model name, allow 0-d arrays?, instance as pval, JSON text emitted by the
+(** one model instance: (model name, does it hold a 0-d array at an unguarded field?, instance as pval, JSON text emitted by the
     implementation, jsonschema's verdict on it, jsonschema's verdict against the schema without uniqueItems) *)
 Definition inst_case := (string * bool * pval * json * bool * bool)%type.
 
@@ -16,7 +16,8 @@ Definition check_parts (c : inst_case) : list bool :=
   match assoc name all_schemas with
   | None => [false]
   | Some (defs, sch) =>
-      [ inhabitsb default_fuel lax env (TModel name) pv
+      [ inhabitsb default_fuel true env (TModel name) pv    (* 0-d arrays only where no validator guards the shape *)
+      ; Bool.eqb (inhabitsb default_fuel true (shape_env (plain_array_fields env) env) (TModel name) pv) (negb lax)
       ; json_same (emit pv) j
       ; verdict_is (validates default_fuel defs sch j) expect
       ; verdict_is (validates default_fuel (strip_defs defs) (strip_unique sch) j) expect_stripped
